@@ -246,7 +246,7 @@ Proof.
   intros I Lv G. unfold str_detach. destruct r as [|b].
   - exact (Inv_alloc_store s v _ _ I Lv ltac:(intros; rewrite G; reflexivity)).
   - destruct (Inv_live s v b o I G) as [[L F] R]. rewrite (touch_live _ _ F).
-    destruct ((rc (getb s b) =? 1) && (slen (push (val (getb s b)) g) <=? cap (getb s b))) eqn:E.
+    destruct ((rc (getb s b) =? 1) && (str_need g (val (getb s b)) <=? cap (getb s b))) eqn:E.
     + apply andb_true_iff in E. destruct E as [E _]. apply Z.eqb_eq in E.
       apply Inv_write_inplace; [exact I|split; assumption|exact E].
     + exact (Inv_clone FStr s v b o _ _ I Lv G).
@@ -280,7 +280,7 @@ Proof.
   intros I. pose proof I as [W C]. unfold step, step_gen. rewrite (wf_flt _ _ W).
   destruct (negb (forallb (fun v => Nat.ltb v (length (vars s))) (op_vars o))) eqn:B; [exact I|].
   apply negb_false_iff in B.
-  destruct o as [v n|v|d sv|d sv|d sv|v|a b|d sv|v c|v m|v|v]; cbn [op_vars forallb] in B;
+  destruct o as [v n|v|d sv|d sv|d sv|v|a b|d sv|v c|v m|v|v|v n|v n]; cbn [op_vars forallb] in B;
   rewrite ?andb_true_r, ?andb_true_iff, ?Nat.ltb_lt in B.
   - (* OCreate *)
     destruct (getv s v) eqn:G; [|exact I].
@@ -407,17 +407,23 @@ Proof.
     + exact (Inv_assign_val FXml s v r o c I B G).
   - (* OWrite *)
     destruct f; try exact I; destruct (getv s v) as [|r o] eqn:G; try exact I.
-    + exact (Inv_str_detach s v r o m I B G).
+    + exact (Inv_str_detach s v r o (SPush m) I B G).
     + exact (Inv_var_detach s v r o m I B G).
     + exact (Inv_var_detach s v r o m I B G).
   - (* ODetach *)
     destruct f; try exact I; destruct (getv s v) as [|r o] eqn:G; try exact I.
-    + exact (Inv_str_detach s v r o 0 I B G).
+    + exact (Inv_str_detach s v r o (SPush 0) I B G).
     + exact (Inv_var_detach s v r o 0 I B G).
     + exact (Inv_var_detach s v r o 0 I B G).
   - (* ODestroy *)
     destruct (getv s v) as [|r o] eqn:G; [exact I|].
     apply (Inv_drop f s v r o _ I B G); [intros; reflexivity|discriminate].
+  - (* OResize *)
+    destruct f; try exact I; destruct (getv s v) as [|r o] eqn:G; try exact I.
+    exact (Inv_str_detach s v r o (STrunc n) I B G).
+  - (* OReserve *)
+    destruct f; try exact I; destruct (getv s v) as [|r o] eqn:G; try exact I.
+    exact (Inv_str_detach s v r o (SReserve n) I B G).
 Qed.
 
 Theorem run_Inv f ops : Inv (run f ops).
